@@ -9,8 +9,9 @@
   excludes the one situation in which the code as it is breaks the promise (K5).
 -/
 import Minicbor.Compat
-import Minicbor.Thm.C09
+import Minicbor.Thm.C09Round
 import Minicbor.Lemmas.DeriveCompat
+import Minicbor.Lemmas.DeriveCompat3
 
 namespace Minicbor.C10
 open Minicbor.Derive
@@ -528,5 +529,846 @@ theorem step_compatible_variant (e : EAttr) (vars : Variants) (va : VAttr) (fs :
   · simp only [compatTy, beq_self_eq_true, Bool.true_and, compatVars, hnf]
     exact compatVars_refl true e vars vars hold'.1.1.2 hndO (fun g hg => hg)
   · simp [compatTy, compatVars, hnf]
+
+/-! ## The general theorem: arbitrary compatible versions, at any nesting depth
+
+`compat_ty` (mutual structural induction over the writer's schema, following the structure of
+`compatTy`): for accepted schemas `w`, `r` with `compatTy l w r`, every well-typed value `v` of
+`w` outside the `Some(x) = null` exclusion and outside K5 (`benign`), whose encoding fits a slice,
+the reader's decoder on the writer's encoding followed by arbitrary bytes delivers the documented
+projection and stops exactly at the end of the encoding; where the projection is "unknown
+variant" (possible only in lenient position, i.e. in the declared type of an optional field) it
+reports an unknown-variant error, which the enclosing optional field turns into its nil value
+after skipping the whole item (`body_compat`).  Items the reader does not know are crossed by
+`skip()` (C06.skip_exact, the derived encoding being a valid wire tree: `spec_valid`). -/
+
+mutual
+theorem compat_ty : ∀ (w r : FTy) (l : Bool) (v : Derive.Val), accepted w = true → accepted r = true →
+    compatTy l w r = true → benignP true w r v = true → hasTy w v = true → C09.noClash w v = true →
+    (encTy w v).length < 2 ^ 64 → TyC l w r v
+  | .int k, r, l, v, _, _, hc, _, hv, _, _ => by
+    cases r with
+    | int k' => exact tyC_int k k' l v hc hv
+    | _ => simp [compatTy] at hc
+  | .bool, r, l, v, _, _, hc, _, hv, _, _ => by
+    cases r with
+    | bool => exact tyC_bool l v hv
+    | _ => simp [compatTy] at hc
+  | .text k, r, l, v, _, _, hc, _, hv, _, _ => by
+    cases r with
+    | text k' => exact tyC_text k k' l v hv
+    | _ => simp [compatTy] at hc
+  | .blob k, r, l, v, _, _, hc, _, hv, _, _ => by
+    cases r with
+    | blob k' => exact tyC_blob k k' l v hv
+    | _ => simp [compatTy] at hc
+  | .option w, r, l, v, ha, har, hc, hb, hv, hcl, hlen => by
+    cases r with
+    | option r' =>
+      simp only [accepted] at ha har
+      simp only [compatTy] at hc
+      cases v with
+      | none => exact tyC_option_none l w r'
+      | some x =>
+        simp only [hasTy] at hv
+        simp only [C09.noClash, Bool.and_eq_true] at hcl
+        simp only [benignP] at hb
+        simp only [encTy] at hlen
+        exact tyC_option_some l w r' x hcl.1 (compat_ty w r' l x ha har hc hb hv hcl.2 hlen)
+      | _ => simp [hasTy] at hv
+    | _ => simp [compatTy] at hc
+  | .vec w, r, l, v, ha, har, hc, hb, hv, hcl, hlen => by
+    cases r with
+    | vec r' =>
+      simp only [accepted] at ha har
+      simp only [compatTy] at hc
+      cases v with
+      | list vs =>
+        simp only [hasTy, Bool.and_eq_true, List.all_eq_true, decide_eq_true_eq] at hv
+        simp only [C09.noClash, List.all_eq_true] at hcl
+        simp only [benignP, List.all_eq_true] at hb
+        simp only [encTy, List.length_append] at hlen
+        refine tyC_vec l w r' vs hv.2 (fun x hx => compat_ty w r' false x ha har hc (hb x hx) (hv.1 x hx) (hcl x hx) ?_)
+        have := flatten_mem_length (vs.map (encTy w)) (encTy w x) (List.mem_map.2 ⟨x, hx, rfl⟩)
+        omega
+      | _ => simp [hasTy] at hv
+    | _ => simp [compatTy] at hc
+  | .struct a fs, r, l, v, ha, har, hc, hb, hv, hcl, hlen => by
+    cases r with
+    | struct b gs =>
+      cases v with
+      | struct vs =>
+        simp only [accepted, Bool.and_eq_true] at ha har
+        simp only [hasTy] at hv
+        simp only [C09.noClash] at hcl
+        simp only [compatTy, Bool.and_eq_true, beq_iff_eq] at hc
+        have hndW := C08.nodupNat_nodup _ ha.1.1.2
+        have hndR := C08.nodupNat_nodup _ har.1.1.2
+        cases hta : a.transparent
+        · have htb : b.transparent = false := by rw [← hc.1]; exact hta
+          have hc2 := hc.2
+          simp only [hta, Bool.false_eq_true, if_false, Bool.and_eq_true, beq_iff_eq] at hc2
+          obtain ⟨⟨⟨htag, henc⟩, hcf⟩, hoo⟩ := hc2
+          simp only [benignP, hta, Bool.false_eq_true, if_false, Bool.and_eq_true] at hb
+          simp only [encTy, hta, Bool.false_eq_true, if_false, List.length_append] at hlen
+          have hfl : (frame (a.enc.getD .array) (encFields fs vs)).length < 2 ^ 64 := by omega
+          have hfit := fieldsFit_of_frame _ fs vs ha.1.1.1.2 hndW hv hfl
+          have hitems := compat_fields fs gs vs ha.1.1.1.2 har.1.1.1.2 hndR hcf hb.1 hv hcl hfit
+          have HB : BodyHyp (a.enc.getD .array) fs vs gs :=
+            ⟨ha.1.1.1.2, hndW, hv, har.1.1.1.2, hndR, hcf, hoo, k5_of_benign a.enc fs gs vs ha.1.1.1.2 hv hb.2, hfl, hitems⟩
+          exact tyC_struct l a b fs gs vs hta htb htag ha.1.1.1.1 henc HB
+        · have htb : b.transparent = true := by rw [← hc.1]; exact hta
+          have hc2 := hc.2
+          simp only [hta, if_true] at hc2
+          have ha2 := ha.2
+          simp only [hta, Bool.not_true, Bool.false_or, Bool.and_eq_true] at ha2
+          have har2 := har.2
+          simp only [htb, Bool.not_true, Bool.false_or, Bool.and_eq_true] at har2
+          simp only [benignP, hta, if_true] at hb
+          simp only [encTy, hta, if_true] at hlen
+          match gs, hc2, har, har2, hb with
+          | [(gb, u)], hc2, har, har2, hb =>
+            have hgacc := har.1.1.1.2
+            simp only [acceptedFields, Bool.and_eq_true] at hgacc
+            have hgs : gb.skip = false := by simpa using har2.2
+            exact tyC_transparent l a b fs gb u vs hta htb
+              (compat_one fs gb u vs ha.1.1.1.2 ha2.2 hgs hgacc.1.1 hgacc.1.2 hc2 hb hv hcl hlen)
+          | [], hc2, _, _, _ => simp at hc2
+          | _ :: _ :: _, hc2, _, _, _ => simp at hc2
+      | _ => simp [hasTy] at hv
+    | _ => simp [compatTy] at hc
+  | .enum a vs, r, l, v, ha, har, hc, hb, hv, hcl, hlen => by
+    cases r with
+    | enum b us =>
+      cases v with
+      | enum k fvs =>
+        simp only [accepted, Bool.and_eq_true] at ha har
+        simp only [hasTy] at hv
+        simp only [C09.noClash] at hcl
+        simp only [compatTy, Bool.and_eq_true, beq_iff_eq] at hc
+        simp only [benignP] at hb
+        obtain ⟨⟨htag, hio⟩, hcv⟩ := hc
+        have hidx := varIdx_lt a vs k fvs ha.1.1.2 hv
+        have hrl : (C09.rowBytes a vs k fvs).length < 2 ^ 64 := by
+          simp only [encTy, C09.encVars_eq a vs k fvs ha.1.1.2 hv, List.length_append] at hlen
+          omega
+        exact tyC_enum l a b vs us k fvs htag ha.1.1.1 hio ha.1.1.2 hv hidx
+          (compat_vars l a b us vs k fvs hio ha.1.1.2 har.1.1.2 hcv hb hv hcl hrl)
+      | _ => simp [hasTy] at hv
+    | _ => simp [compatTy] at hc
+termination_by structural w => w
+/-- transparent structs: the single writer field against the single reader field. -/
+theorem compat_one : ∀ (fs : Fields) (gb : FAttr) (u : FTy) (vs : List Derive.Val), acceptedFields fs = true →
+    (match fs with | [(fa, _)] => !fa.skip | _ => false) = true → gb.skip = false → fieldAttrOk gb u = true →
+    (fieldBlob u || accepted u) = true → compatOne fs gb u = true → benignOne true fs u vs = true →
+    hasFields fs vs = true → C09.noClashFields fs vs = true → (transparentBody (encFields fs vs)).length < 2 ^ 64 →
+    (∀ x, projOne fs u vs = .ok x → ∀ rest,
+        decWith gb.codec (decTy u) (transparentBody (encFields fs vs) ++ rest) = .ok x rest) ∧
+      projOne fs u vs ≠ .unknown
+  | [], _, _, _, _, h, _, _, _, _, _, _, _, _ => by simp at h
+  | _ :: _ :: _, _, _, _, _, h, _, _, _, _, _, _, _, _ => by simp at h
+  | [(fa, t)], gb, u, vs, ha, hs, hgs, hgok, hgacc, hc, hb, hv, hcl, hlen => by
+    have hfs : fa.skip = false := by simpa using hs
+    match vs, hv, hb, hcl, hlen with
+    | [], hv, _, _, _ => simp [hasFields] at hv
+    | _ :: _ :: _, hv, _, _, _ => simp [hasFields] at hv
+    | [v], hv, hb, hcl, hlen =>
+      simp only [hasFields, Bool.and_eq_true] at hv
+      simp only [acceptedFields, Bool.and_eq_true, Bool.or_eq_true] at ha
+      simp only [compatOne, Bool.and_eq_true, beq_iff_eq] at hc
+      simp only [benignOne] at hb
+      simp only [C09.noClashFields, hfs, Bool.false_or, Bool.and_true] at hcl
+      simp only [encFields, hfs, Bool.false_eq_true, if_false, transparentBody] at hlen ⊢
+      have hattr := ha.1.1
+      simp only [fieldAttrOk, hfs, Bool.false_eq_true, if_false, Bool.and_eq_true] at hattr
+      simp only [fieldAttrOk, hgs, Bool.false_eq_true, if_false, Bool.and_eq_true] at hgok
+      have hI : ItemC false fa t v gb u := by
+        apply itemC_of_tyC false fa t v gb u hc.1 hattr.1.2 hgok.1.2 hv.1 hc.2
+        intro hnn
+        have e2 : encWith fa.codec (encTy t) v = encTy t v := by
+          cases hcd : fa.codec <;> simp [encWith] ; exact absurd hcd hnn
+        rw [e2] at hlen
+        rcases ha.1.2 with hbl | hacc
+        · exact tyC_fieldBlob false t u v hbl hc.2 hv.1 hcl
+        · cases hbu : fieldBlob u
+          · have haccu : accepted u = true := by simpa [hbu] using hgacc
+            exact compat_ty t u false v hacc haccu hc.2 hb hv.1 hcl hlen
+          · exact tyC_fieldBlob false t u v (fieldBlob_of_compat false t u hc.2 hbu) hc.2 hv.1 hcl
+      refine ⟨fun x hx rest => ?_, fun hu => ?_⟩
+      · simp only [projOne] at hx
+        exact hI.1 x hx rest
+      · simp only [projOne] at hu
+        have := (hI.2 hu).1
+        cases this
+termination_by structural fs => fs
+/-- the fields of a struct / variant body: every shared non-nil field is read compatibly. -/
+theorem compat_fields : ∀ (fs gs : Fields) (vs : List Derive.Val), acceptedFields fs = true → acceptedFields gs = true →
+    (liveIdxs gs).Nodup → compatFields fs gs = true → benignFields true fs gs vs = true → hasFields fs vs = true →
+    C09.noClashFields fs vs = true → FieldsFit fs vs → FieldsC gs fs vs
+  | [], _, vs, _, _, _, _, _, _, _, _ => by cases vs <;> trivial
+  | (a, t) :: fs, _, [], _, _, _, _, _, _, _, _ => trivial
+  | (a, t) :: fs, gs, v :: vs, ha, hga, hgn, hc, hb, hv, hcl, hfit => by
+    simp only [acceptedFields, Bool.and_eq_true, Bool.or_eq_true] at ha
+    simp only [compatFields, Bool.and_eq_true] at hc
+    simp only [benignFields, Bool.and_eq_true] at hb
+    simp only [hasFields, Bool.and_eq_true] at hv
+    simp only [C09.noClashFields, Bool.and_eq_true, Bool.or_eq_true] at hcl
+    refine ⟨?_, compat_fields fs gs vs ha.2 hga hgn hc.2 hb.2 hv.2 hcl.2 hfit.2⟩
+    intro hs hn b u hf
+    obtain ⟨hbu, hbs, _⟩ := findField_mem gs a.idx b u hf
+    have hc1 := hc.1
+    have hb1 := hb.1
+    simp only [hs, Bool.false_eq_true, if_false, hf, Bool.and_eq_true, beq_iff_eq] at hc1 hb1
+    have hattr := ha.1.1
+    simp only [fieldAttrOk, hs, Bool.false_eq_true, if_false, Bool.and_eq_true] at hattr
+    have hok := fieldOk_of_mem gs b u hga hbu hbs
+    have hcl1 : C09.noClash t v = true := by
+      rcases hcl.1 with h | h
+      · rw [hs] at h; cases h
+      · exact h
+    apply itemC_of_tyC _ a t v b u (by simpa using hc1.1.2) hattr.1.2 hok.2 hv.1 hc1.2
+    intro hnn
+    have hlen := hfit.1 hs hn
+    have e2 : encWith a.codec (encTy t) v = encTy t v := by
+      cases hcd : a.codec <;> simp [encWith] ; exact absurd hcd hnn
+    rw [e2] at hlen
+    rcases ha.1.2 with hbl | hacc
+    · exact tyC_fieldBlob _ t u v hbl hc1.2 hv.1 hcl1
+    · cases hbu' : fieldBlob u
+      · have haccu : accepted u = true := by
+          rcases accF_of_mem gs b u hga hbu with h | h
+          · rw [hbu'] at h; cases h
+          · exact h
+        exact compat_ty t u _ v hacc haccu hc1.2 hb1 hv.1 hcl1 hlen
+      · exact tyC_fieldBlob _ t u v (fieldBlob_of_compat _ t u hc1.2 hbu') hc1.2 hv.1 hcl1
+termination_by structural fs => fs
+/-- the rows of an enum. -/
+theorem compat_vars (l : Bool) (a b : EAttr) (us : Variants) : ∀ (vs : Variants) (k : Nat) (fvs : List Derive.Val),
+    a.indexOnly = b.indexOnly → acceptedVars a vs = true → acceptedVars b us = true →
+    compatVars l a b vs us = true → benignVars true a b vs us k fvs = true → hasVars vs k fvs = true →
+    C09.noClashVars vs k fvs = true → (C09.rowBytes a vs k fvs).length < 2 ^ 64 →
+    (∀ x, projVars vs us k fvs = .ok x → ∀ r,
+      findVariant (decVars b us) 0 (C09.varIdx vs k) (C09.rowBytes a vs k fvs ++ r) = .ok x r) ∧
+    (projVars vs us k fvs = .unknown → l = true ∧ ∀ r, ∃ r',
+      findVariant (decVars b us) 0 (C09.varIdx vs k) (C09.rowBytes a vs k fvs ++ r) = .err .variant r')
+  | [], _, _, _, _, _, _, _, hv, _, _ => by simp [hasVars] at hv
+  | (va, fs) :: rest, 0, fvs, hio, haW, haR, hc, hb, hv, hcl, hlen => by
+    simp only [acceptedVars, Bool.and_eq_true, decide_eq_true_eq] at haW
+    obtain ⟨⟨⟨⟨⟨⟨hidx, htag⟩, hacc⟩, hnd⟩, hunit⟩, hioW⟩, _⟩ := haW
+    simp only [compatVars, Bool.and_eq_true] at hc
+    simp only [hasVars] at hv
+    simp only [C09.noClashVars] at hcl
+    have hndW := C08.nodupNat_nodup _ hnd
+    have hunitW : va.shape = .unit → fs = [] := by intro h; simpa [h] using hunit
+    have hioW' : a.indexOnly = true → va.shape = .unit := by intro h; simpa [h] using hioW
+    have hfl : (frame (va.enc.getD (a.enc.getD .array)) (encFields fs fvs)).length < 2 ^ 64 := by
+      cases hsh : va.shape
+      · have := hunitW hsh
+        subst this
+        rw [show encFields [] fvs = [] by cases fvs <;> rfl, frame_nil]
+        cases (va.enc.getD (a.enc.getD .array)) <;> decide
+      all_goals
+        simp only [C09.rowBytes, hsh, List.length_append] at hlen
+        omega
+    have H : RowHyp a b va fs fvs us := ⟨hio, htag, hacc, hndW, hunitW, hioW', haR, hv, hfl⟩
+    exact row_compat l a b va fs rest us fvs H hc.1 hb
+      (fun gs hga hgn hcf hbf => compat_fields fs gs fvs hacc hga hgn hcf hbf hv hcl
+        (fieldsFit_of_frame _ fs fvs hacc hndW hv hfl))
+  | (va, fs) :: rest, k + 1, fvs, hio, haW, haR, hc, hb, hv, hcl, hlen => by
+    simp only [acceptedVars, Bool.and_eq_true] at haW
+    simp only [compatVars, Bool.and_eq_true] at hc
+    simp only [benignVars] at hb
+    simp only [hasVars] at hv
+    simp only [C09.noClashVars] at hcl
+    simp only [C09.rowBytes] at hlen
+    simp only [projVars, C09.varIdx, C09.rowBytes]
+    exact compat_vars l a b us rest k fvs hio haW.2 haR hc.2 hb hv hcl hlen
+termination_by structural vs => vs
+end
+
+/-! ## The projection is defined on compatible versions
+
+`proj_ty`: for accepted `w`, `r` with `compatTy l w r` and every well-typed `v`, `project w r v` is
+never `bad`, and it is `unknown` only in lenient position — so `compat_decode` is not vacuous: on
+`compatible` versions there always is a projected value, and the reader returns it. -/
+
+theorem pjOk_of_ok {l : Bool} {w r : FTy} {v : Derive.Val} {x : Derive.Val} (h : projTy w r v = .ok x) : PjOk l w r v :=
+  ⟨by rw [h]; simp, fun hu => by rw [h] at hu; cases hu⟩
+
+theorem pjOk_fieldBlob (l : Bool) (t u : FTy) (v : Derive.Val) (hb : fieldBlob t = true) (hc : compatTy l t u = true)
+    (hv : hasTy t v = true) : PjOk l t u v := by
+  cases t with
+  | blob k =>
+    cases u <;> simp [compatTy] at hc
+    cases v <;> simp [hasTy] at hv
+    exact pjOk_of_ok (x := _) (by simp only [projTy]; rfl)
+  | option t' =>
+    cases t' <;> simp [fieldBlob] at hb
+    cases u <;> simp [compatTy] at hc
+    rename_i u'
+    cases u' <;> simp [compatTy] at hc
+    cases v <;> simp [hasTy] at hv
+    · exact pjOk_of_ok (x := _) (by simp only [projTy]; rfl)
+    · rename_i x
+      cases x <;> simp [hasTy] at hv
+      exact pjOk_of_ok (x := _) (by simp only [projTy]; rfl)
+  | _ => simp [fieldBlob] at hb
+
+theorem pjOk_option_some (l : Bool) (w r : FTy) (v : Derive.Val) (h : PjOk l w r v) :
+    PjOk l (.option w) (.option r) (.some v) := by
+  constructor
+  · simp only [projTy]
+    cases hp : projTy w r v with
+    | ok x => simp
+    | unknown => simp
+    | bad => exact absurd hp h.nb
+  · intro hu
+    simp only [projTy] at hu
+    cases hp : projTy w r v with
+    | ok x => rw [hp] at hu; simp at hu
+    | unknown => exact h.unk hp
+    | bad => exact absurd hp h.nb
+
+theorem pjOk_vec (l : Bool) (w r : FTy) (vs : List Derive.Val) (h : ∀ v ∈ vs, PjOk false w r v) :
+    PjOk l (.vec w) (.vec r) (.list vs) := by
+  obtain ⟨ys, hys⟩ := mapPRes_all_ok (vs.map (projTy w r)) (by
+    intro p hp
+    obtain ⟨v, hv, rfl⟩ := List.mem_map.1 hp
+    exact pjOk_ok w r v (h v hv))
+  exact pjOk_of_ok (by simp only [projTy]; exact hys)
+
+mutual
+theorem proj_ty : ∀ (w r : FTy) (l : Bool) (v : Derive.Val), accepted w = true → accepted r = true →
+    compatTy l w r = true → hasTy w v = true → PjOk l w r v
+  | .int k, r, l, v, _, _, hc, hv => by
+    cases r with
+    | int k' => cases v <;> simp [hasTy] at hv; exact pjOk_of_ok (x := _) (by simp only [projTy]; rfl)
+    | _ => simp [compatTy] at hc
+  | .bool, r, l, v, _, _, hc, hv => by
+    cases r with
+    | bool => cases v <;> simp [hasTy] at hv; exact pjOk_of_ok (x := _) (by simp only [projTy]; rfl)
+    | _ => simp [compatTy] at hc
+  | .text k, r, l, v, _, _, hc, hv => by
+    cases r with
+    | text k' => cases v <;> simp [hasTy] at hv; exact pjOk_of_ok (x := _) (by simp only [projTy]; rfl)
+    | _ => simp [compatTy] at hc
+  | .blob k, r, l, v, _, _, hc, hv => by
+    cases r with
+    | blob k' => cases v <;> simp [hasTy] at hv; exact pjOk_of_ok (x := _) (by simp only [projTy]; rfl)
+    | _ => simp [compatTy] at hc
+  | .option w, r, l, v, ha, har, hc, hv => by
+    cases r with
+    | option r' =>
+      simp only [accepted] at ha har
+      simp only [compatTy] at hc
+      cases v with
+      | none => exact pjOk_of_ok (x := _) (by simp only [projTy]; rfl)
+      | some x =>
+        simp only [hasTy] at hv
+        exact pjOk_option_some l w r' x (proj_ty w r' l x ha har hc hv)
+      | _ => simp [hasTy] at hv
+    | _ => simp [compatTy] at hc
+  | .vec w, r, l, v, ha, har, hc, hv => by
+    cases r with
+    | vec r' =>
+      simp only [accepted] at ha har
+      simp only [compatTy] at hc
+      cases v with
+      | list vs =>
+        simp only [hasTy, Bool.and_eq_true, List.all_eq_true, decide_eq_true_eq] at hv
+        exact pjOk_vec l w r' vs (fun x hx => proj_ty w r' false x ha har hc (hv.1 x hx))
+      | _ => simp [hasTy] at hv
+    | _ => simp [compatTy] at hc
+  | .struct a fs, r, l, v, ha, har, hc, hv => by
+    cases r with
+    | struct b gs =>
+      cases v with
+      | struct vs =>
+        simp only [accepted, Bool.and_eq_true] at ha har
+        simp only [hasTy] at hv
+        simp only [compatTy, Bool.and_eq_true, beq_iff_eq] at hc
+        have hndW := C08.nodupNat_nodup _ ha.1.1.2
+        have hndR := C08.nodupNat_nodup _ har.1.1.2
+        cases hta : a.transparent
+        · have hc2 := hc.2
+          simp only [hta, Bool.false_eq_true, if_false, Bool.and_eq_true, beq_iff_eq] at hc2
+          obtain ⟨⟨⟨_, _⟩, hcf⟩, hoo⟩ := hc2
+          obtain ⟨xs, hxs⟩ := assemble_total fs vs gs hndW hndR hv hcf hoo
+            (proj_fields fs gs vs ha.1.1.1.2 har.1.1.1.2 hcf hv)
+          exact pjOk_of_ok (by simp only [projTy, hta, Bool.false_eq_true, if_false]; exact hxs)
+        · have hc2 := hc.2
+          simp only [hta, if_true] at hc2
+          have ha2 := ha.2
+          simp only [hta, Bool.not_true, Bool.false_or, Bool.and_eq_true] at ha2
+          match gs, hc2, har with
+          | [(gb, u)], hc2, har =>
+            have hgacc := har.1.1.1.2
+            simp only [acceptedFields, Bool.and_eq_true] at hgacc
+            obtain ⟨x, hx⟩ := proj_one fs gb u vs ha.1.1.1.2 ha2.2 hgacc.1.2 hc2 hv
+            exact pjOk_of_ok (x := _) (by simp only [projTy, hta, if_true, hx]; rfl)
+          | [], hc2, _ => simp at hc2
+          | _ :: _ :: _, hc2, _ => simp at hc2
+      | _ => simp [hasTy] at hv
+    | _ => simp [compatTy] at hc
+  | .enum a vs, r, l, v, ha, har, hc, hv => by
+    cases r with
+    | enum b us =>
+      cases v with
+      | enum k fvs =>
+        simp only [accepted, Bool.and_eq_true] at ha har
+        simp only [hasTy] at hv
+        simp only [compatTy, Bool.and_eq_true, beq_iff_eq] at hc
+        have := proj_vars l a b us vs k fvs ha.1.1.2 har.1.1.2 hc.2 hv
+        exact ⟨by simp only [projTy]; exact this.1, fun hu => this.2 (by simpa only [projTy] using hu)⟩
+      | _ => simp [hasTy] at hv
+    | _ => simp [compatTy] at hc
+termination_by structural w => w
+theorem proj_one : ∀ (fs : Fields) (gb : FAttr) (u : FTy) (vs : List Derive.Val), acceptedFields fs = true →
+    (match fs with | [(fa, _)] => !fa.skip | _ => false) = true → (fieldBlob u || accepted u) = true →
+    compatOne fs gb u = true → hasFields fs vs = true → ∃ x, projOne fs u vs = .ok x
+  | [], _, _, _, _, h, _, _, _ => by simp at h
+  | _ :: _ :: _, _, _, _, _, h, _, _, _ => by simp at h
+  | [(fa, t)], gb, u, vs, ha, hs, hgacc, hc, hv => by
+    match vs, hv with
+    | [], hv => simp [hasFields] at hv
+    | _ :: _ :: _, hv => simp [hasFields] at hv
+    | [v], hv =>
+      simp only [hasFields, Bool.and_eq_true] at hv
+      simp only [acceptedFields, Bool.and_eq_true, Bool.or_eq_true] at ha
+      simp only [compatOne, Bool.and_eq_true, beq_iff_eq] at hc
+      have hP : PjOk false t u v := by
+        rcases ha.1.2 with hbl | hacc
+        · exact pjOk_fieldBlob false t u v hbl hc.2 hv.1
+        · cases hbu : fieldBlob u
+          · exact proj_ty t u false v hacc (by simpa [hbu] using hgacc) hc.2 hv.1
+          · exact pjOk_fieldBlob false t u v (fieldBlob_of_compat false t u hc.2 hbu) hc.2 hv.1
+      simpa only [projOne] using pjOk_ok t u v hP
+termination_by structural fs => fs
+theorem proj_fields : ∀ (fs gs : Fields) (vs : List Derive.Val), acceptedFields fs = true → acceptedFields gs = true →
+    compatFields fs gs = true → hasFields fs vs = true → FieldsP gs fs vs
+  | [], _, vs, _, _, _, _ => by cases vs <;> trivial
+  | (a, t) :: fs, _, [], _, _, _, _ => trivial
+  | (a, t) :: fs, gs, v :: vs, ha, hga, hc, hv => by
+    simp only [acceptedFields, Bool.and_eq_true, Bool.or_eq_true] at ha
+    simp only [compatFields, Bool.and_eq_true] at hc
+    simp only [hasFields, Bool.and_eq_true] at hv
+    refine ⟨?_, proj_fields fs gs vs ha.2 hga hc.2 hv.2⟩
+    intro hs _ b u hf
+    obtain ⟨hbu, _, _⟩ := findField_mem gs a.idx b u hf
+    have hc1 := hc.1
+    simp only [hs, Bool.false_eq_true, if_false, hf, Bool.and_eq_true, beq_iff_eq] at hc1
+    rcases ha.1.2 with hbl | hacc
+    · exact pjOk_fieldBlob _ t u v hbl hc1.2 hv.1
+    · cases hbu' : fieldBlob u
+      · have haccu : accepted u = true := by
+          rcases accF_of_mem gs b u hga hbu with h | h
+          · rw [hbu'] at h; cases h
+          · exact h
+        exact proj_ty t u _ v hacc haccu hc1.2 hv.1
+      · exact pjOk_fieldBlob _ t u v (fieldBlob_of_compat _ t u hc1.2 hbu') hc1.2 hv.1
+termination_by structural fs => fs
+theorem proj_vars (l : Bool) (a b : EAttr) (us : Variants) : ∀ (vs : Variants) (k : Nat) (fvs : List Derive.Val),
+    acceptedVars a vs = true → acceptedVars b us = true → compatVars l a b vs us = true → hasVars vs k fvs = true →
+    projVars vs us k fvs ≠ .bad ∧ (projVars vs us k fvs = .unknown → l = true)
+  | [], _, _, _, _, _, hv => by simp [hasVars] at hv
+  | (va, fs) :: rest, 0, fvs, haW, haR, hc, hv => by
+    simp only [acceptedVars, Bool.and_eq_true, decide_eq_true_eq] at haW
+    obtain ⟨⟨⟨⟨⟨⟨_, _⟩, hacc⟩, hnd⟩, hunit⟩, _⟩, _⟩ := haW
+    simp only [compatVars, Bool.and_eq_true] at hc
+    simp only [hasVars] at hv
+    have hunitW : va.shape = .unit → fs = [] := by intro h; simpa [h] using hunit
+    exact row_proj l a b va fs rest us fvs (C08.nodupNat_nodup _ hnd) hv haR hunitW hc.1
+      (fun gs hga _ hcf => proj_fields fs gs fvs hacc hga hcf hv)
+  | (va, fs) :: rest, k + 1, fvs, haW, haR, hc, hv => by
+    simp only [acceptedVars, Bool.and_eq_true] at haW
+    simp only [compatVars, Bool.and_eq_true] at hc
+    simp only [hasVars] at hv
+    simp only [projVars]
+    exact proj_vars l a b us rest k fvs haW.2 haR hc.2 hv
+termination_by structural vs => vs
+end
+
+/-! ## C10, main statements -/
+
+/-- on compatible versions the documented projection of every well-typed value is defined. -/
+theorem project_defined (w r : FTy) (v : Derive.Val) (haw : accepted w = true) (har : accepted r = true)
+    (hc : compatible w r = true) (hv : hasTy w v = true) : ∃ pv, project w r v = .ok pv :=
+  pjOk_ok w r v (proj_ty w r false v haw har hc hv)
+
+/-- **C10 (`compat_decode_statement` restricted by `benign`, i.e. outside K5, and to encodings that
+    fit a slice).**  For any two accepted versions `w`, `r` of a type with `compatible w r` — the
+    relation generated by the documented edits: renaming, adding / dropping optional fields at new
+    or gap indices in array or map encoding, adding variants to an enum used as an optional field,
+    unit variant ↔ variant with only optional fields, at any nesting depth (structs, variants,
+    `Option`, `Vec`, transparent wrappers) — and every value `v` of the writer's version, the
+    reader's decoder on the writer's encoding followed by arbitrary bytes returns exactly the
+    documented projection and stops exactly at the end of the encoding: shared fields equal
+    (recursively projected), optional fields unknown to the writer nil, fields unknown to the
+    reader ignored whatever their content, an unknown variant in an optional field `None` without
+    disturbing any sibling.  The extra hypotheses: `benign` (decidable) excludes exactly K5;
+    `noClash` is the `Some(x) = null` exclusion of C09; the size bound is what every Rust slice
+    satisfies (`skip()` counts in `u64`). -/
+theorem compat_decode_partial (w r : FTy) (v : Derive.Val) (rest : Bytes) (haw : accepted w = true)
+    (har : accepted r = true) (hc : compatible w r = true) (hb : benign w r v = true) (hv : hasTy w v = true)
+    (hcl : C09.noClash w v = true) (hfit : (deriveEncode w v).length < 2 ^ 64) :
+    ∀ pv, project w r v = .ok pv → deriveDecode r (deriveEncode w v ++ rest) = .ok pv rest :=
+  fun pv hp => (compat_ty w r false v haw har hc hb hv hcl hfit).ok pv hp rest
+
+/-- … and the projection exists: the reader always obtains *the* projected value. -/
+theorem compat_decode (w r : FTy) (v : Derive.Val) (rest : Bytes) (haw : accepted w = true)
+    (har : accepted r = true) (hc : compatible w r = true) (hb : benign w r v = true) (hv : hasTy w v = true)
+    (hcl : C09.noClash w v = true) (hfit : (deriveEncode w v).length < 2 ^ 64) :
+    ∃ pv, project w r v = .ok pv ∧ deriveDecode r (deriveEncode w v ++ rest) = .ok pv rest := by
+  obtain ⟨pv, hp⟩ := project_defined w r v haw har hc hv
+  exact ⟨pv, hp, compat_decode_partial w r v rest haw har hc hb hv hcl hfit pv hp⟩
+
+/-- in *lenient* position (the declared type of an optional field) the writer's enum may have
+    variants the reader does not know: then the reader's decoder reports an unknown-variant error
+    (which the enclosing field turns into `None`); otherwise it returns the projection. -/
+theorem compat_decode_lenient (w r : FTy) (v : Derive.Val) (rest : Bytes) (haw : accepted w = true)
+    (har : accepted r = true) (hc : compatTy true w r = true) (hb : benign w r v = true) (hv : hasTy w v = true)
+    (hcl : C09.noClash w v = true) (hfit : (deriveEncode w v).length < 2 ^ 64) :
+    (∃ pv, project w r v = .ok pv ∧ deriveDecode r (deriveEncode w v ++ rest) = .ok pv rest) ∨
+    (project w r v = .unknown ∧ ∃ r', deriveDecode r (deriveEncode w v ++ rest) = .err .variant r') := by
+  have hT := compat_ty w r true v haw har hc hb hv hcl hfit
+  have hP := proj_ty w r true v haw har hc hv
+  cases hp : projTy w r v with
+  | ok pv => exact Or.inl ⟨pv, hp, hT.ok pv hp rest⟩
+  | unknown => exact Or.inr ⟨hp, (hT.unk hp).2 rest⟩
+  | bad => exact absurd hp hP.nb
+
+/-- every version reads itself: the projection onto the same version exists and is what the
+    decoder returns (C09's round trip, re-derived through the general theorem). -/
+theorem compat_decode_self (t : FTy) (v : Derive.Val) (rest : Bytes) (ha : accepted t = true) (hb : benign t t v = true)
+    (hv : hasTy t v = true) (hcl : C09.noClash t v = true) (hfit : (deriveEncode t v).length < 2 ^ 64) :
+    project t t v = .ok (withDefaults t v) := by
+  obtain ⟨pv, hp, hd⟩ := compat_decode t t v rest ha ha (compatible_refl t ha) hb hv hcl hfit
+  have := C09.derive_roundtrip t v ha hv hcl rest
+  rw [this] at hd
+  cases hd
+  exact hp
+
+/-! ### non-vacuity: a two-version pair exercising nesting, gap and new indices, both encodings,
+    a new variant in optional position, unit → struct variant, `Vec` of edited structs -/
+
+def exOld : FTy := .struct {}
+  [({ idx := 0 }, .int .u8),
+   ({ idx := 1 }, .option (.enum {} [({ idx := 0 }, []), ({ idx := 1 }, [])])),
+   ({ idx := 3 }, .vec (.struct { enc := some .map } [({ idx := 0 }, .text .string)]))]
+
+def exNew : FTy := .struct {}
+  [({ idx := 0 }, .int .u8),
+   ({ idx := 1 }, .option (.enum {} [({ idx := 0 }, []), ({ idx := 1, shape := .named }, [({ idx := 0 }, .option .bool)]), ({ idx := 2 }, [])])),
+   ({ idx := 2 }, .option (.int .u16)),
+   ({ idx := 3 }, .vec (.struct { enc := some .map } [({ idx := 0 }, .text .string), ({ idx := 5 }, .option .bool)]))]
+
+def exNewVal : Derive.Val := .struct [.int 7, .some (.enum 2 []), .some (.int 300), .list [.struct [.text [0x61], .some (.bool true)]]]
+def exNewVal' : Derive.Val := .struct [.int 7, .some (.enum 1 [.some (.bool true)]), .none, .list []]
+def exOldVal : Derive.Val := .struct [.int 9, .some (.enum 1 []), .list [.struct [.text [0x62]]]]
+
+theorem compat_example_hyps :
+    accepted exOld = true ∧ accepted exNew = true ∧ compatible exOld exNew = true ∧ compatible exNew exOld = true ∧
+    hasTy exNew exNewVal = true ∧ benign exNew exOld exNewVal = true ∧ C09.noClash exNew exNewVal = true ∧
+    hasTy exOld exOldVal = true ∧ benign exOld exNew exOldVal = true ∧ C09.noClash exOld exOldVal = true := by
+  refine ⟨by rfl, by rfl, by rfl, by rfl, by rfl, by rfl, by rfl, by rfl, by rfl, by rfl⟩
+
+/-- the older reader on the newer writer: the unknown variant becomes `None`, the new fields are
+    ignored (at top level and inside the `Vec`), the trailing bytes are untouched. -/
+example : deriveDecode exOld (deriveEncode exNew exNewVal ++ [1, 2])
+    = .ok (.struct [.int 7, .none, .list [.struct [.text [0x61]]]]) [1, 2] :=
+  compat_decode_partial exNew exOld exNewVal [1, 2] (by rfl) (by rfl) (by rfl) (by rfl) (by rfl) (by rfl) (by decide) _ (by rfl)
+
+/-- struct variant → unit variant (the body is skipped). -/
+example : deriveDecode exOld (deriveEncode exNew exNewVal' ++ [1, 2])
+    = .ok (.struct [.int 7, .some (.enum 1 []), .list []]) [1, 2] :=
+  compat_decode_partial exNew exOld exNewVal' [1, 2] (by rfl) (by rfl) (by rfl) (by rfl) (by rfl) (by rfl) (by decide) _ (by rfl)
+
+/-- the newer reader on the older writer: unit variant → struct variant with its optional field
+    `None`, the optional field added at the gap index 2 reads the writer's gap `null` as `None`,
+    the new field of the map-encoded element struct is `None`. -/
+example : deriveDecode exNew (deriveEncode exOld exOldVal ++ [3])
+    = .ok (.struct [.int 9, .some (.enum 1 [.none]), .none, .list [.struct [.text [0x62], .none]]]) [3] :=
+  compat_decode_partial exOld exNew exOldVal [3] (by rfl) (by rfl) (by rfl) (by rfl) (by rfl) (by rfl) (by decide) _ (by rfl)
+
+/-- the same pair with a *tag* on the field added at the gap index is K5: not `benign`, and indeed a type error. -/
+example :
+    let exNewK5 : FTy := .struct {}
+      [({ idx := 0 }, .int .u8), ({ idx := 1 }, .option (.enum {} [({ idx := 0 }, []), ({ idx := 1 }, [])])),
+       ({ idx := 2, tag := some 7 }, .option (.int .u16)), ({ idx := 3 }, .vec (.int .u8))]
+    let exOldK5 : FTy := .struct {}
+      [({ idx := 0 }, .int .u8), ({ idx := 1 }, .option (.enum {} [({ idx := 0 }, []), ({ idx := 1 }, [])])),
+       ({ idx := 3 }, .vec (.int .u8))]
+    compatible exOldK5 exNewK5 = true ∧ benign exOldK5 exNewK5 (.struct [.int 9, .none, .list []]) = false ∧
+    deriveDecode exNewK5 (deriveEncode exOldK5 (.struct [.int 9, .none, .list []])) = .err .type [0x80] := by
+  refine ⟨by rfl, by rfl, by rfl⟩
+
+/-! ## The documented edits are instances of `compatible`, both directions (all constructors of `CompatStep`) -/
+
+theorem isOption_anon (t : FTy) : (C08.anonymize t).isOption = t.isOption := by
+  cases t <;> simp [C08.anonymize, FTy.isOption]
+
+theorem optionalField_anon (a : FAttr) (t : FTy) :
+    optionalField { a with name := "", isB := false } (C08.anonymize t) = optionalField a t := by
+  simp [optionalField, nilOf, isOption_anon]
+
+theorem findField_anon : ∀ (gs : Fields) (i : Nat),
+    findField (C08.anonFields gs) i = (findField gs i).map fun g => ({ g.1 with name := "", isB := false }, C08.anonymize g.2)
+  | [], _ => rfl
+  | (b, u) :: gs, i => by
+    simp only [C08.anonFields, findField]
+    split
+    · rfl
+    · exact findField_anon gs i
+
+theorem findVar_anon : ∀ (us : Variants) (pos i : Nat),
+    findVar (C08.anonVars us) pos i =
+      (findVar us pos i).map fun x => (x.1, { x.2.1 with name := "", isB := false }, C08.anonFields x.2.2)
+  | [], _, _ => rfl
+  | (vb, gs) :: us, pos, i => by
+    simp only [C08.anonVars, findVar]
+    split
+    · rfl
+    · exact findVar_anon us (pos + 1) i
+
+theorem allOptional_anon (gs : Fields) : allOptional (C08.anonFields gs) = allOptional gs := by
+  induction gs with
+  | nil => rfl
+  | cons g gs ih =>
+    obtain ⟨b, u⟩ := g
+    simp only [allOptional, C08.anonFields, List.all_cons] at ih ⊢
+    rw [ih, optionalField_anon]
+
+theorem onlyOptional_anon (gs fs : Fields) : onlyOptional (C08.anonFields gs) (C08.anonFields fs) = onlyOptional gs fs := by
+  induction gs with
+  | nil => rfl
+  | cons g gs ih =>
+    obtain ⟨b, u⟩ := g
+    simp only [onlyOptional, C08.anonFields, List.all_cons] at ih ⊢
+    rw [ih, optionalField_anon, findField_anon]
+    cases findField fs b.idx <;> simp
+
+mutual
+theorem compat_anon : ∀ (w r : FTy) (l : Bool), compatTy l (C08.anonymize w) (C08.anonymize r) = compatTy l w r
+  | .int _, r, l => by cases r <;> simp [C08.anonymize, compatTy]
+  | .bool, r, l => by cases r <;> simp [C08.anonymize, compatTy]
+  | .text _, r, l => by cases r <;> simp [C08.anonymize, compatTy]
+  | .blob _, r, l => by cases r <;> simp [C08.anonymize, compatTy]
+  | .option w, r, l => by
+    cases r <;> simp only [C08.anonymize, compatTy]
+    exact compat_anon w _ l
+  | .vec w, r, l => by
+    cases r <;> simp only [C08.anonymize, compatTy]
+    exact compat_anon w _ false
+  | .struct a fs, r, l => by
+    cases r <;> simp only [C08.anonymize, compatTy]
+    rename_i b gs
+    rw [compatFields_anon fs gs, onlyOptional_anon]
+    congr 1
+    cases a.transparent
+    · rfl
+    · simp only [if_true]
+      match gs with
+      | [(gb, u)] => simp only [C08.anonFields]; exact compatOne_anon fs gb u
+      | [] => rfl
+      | _ :: _ :: _ => rfl
+  | .enum a vs, r, l => by
+    cases r <;> simp only [C08.anonymize, compatTy]
+    rename_i b us
+    rw [compatVars_anon l a b vs us]
+termination_by structural w => w
+theorem compatOne_anon : ∀ (fs : Fields) (gb : FAttr) (u : FTy),
+    compatOne (C08.anonFields fs) { gb with name := "", isB := false } (C08.anonymize u) = compatOne fs gb u
+  | [], _, _ => rfl
+  | [(fa, t)], gb, u => by simp only [C08.anonFields, compatOne]; rw [compat_anon t u false]
+  | _ :: _ :: _, _, _ => rfl
+termination_by structural fs => fs
+theorem compatFields_anon : ∀ (fs gs : Fields), compatFields (C08.anonFields fs) (C08.anonFields gs) = compatFields fs gs
+  | [], _ => rfl
+  | (fa, t) :: fs, gs => by
+    simp only [C08.anonFields, compatFields]
+    rw [compatFields_anon fs gs, findField_anon]
+    congr 1
+    cases fa.skip
+    · simp only [Bool.false_eq_true, if_false]
+      cases hf : findField gs fa.idx with
+      | none => rfl
+      | some g =>
+        obtain ⟨gb, u⟩ := g
+        simp only [Option.map_some, optionalField_anon, compat_anon t u]
+    · rfl
+termination_by structural fs => fs
+theorem compatVars_anon (l : Bool) (a b : EAttr) : ∀ (vs us : Variants),
+    compatVars l { a with name := "" } { b with name := "" } (C08.anonVars vs) (C08.anonVars us) = compatVars l a b vs us
+  | [], _ => rfl
+  | (va, fs) :: rest, us => by
+    simp only [C08.anonVars, compatVars]
+    rw [compatVars_anon l a b rest us, findVar_anon]
+    congr 1
+    cases hf : findVar us 0 va.idx with
+    | none => rfl
+    | some x =>
+      obtain ⟨p, vb, gs⟩ := x
+      simp only [Option.map_some, allOptional_anon, compatFields_anon, onlyOptional_anon]
+termination_by structural vs => vs
+end
+
+/-- accepted as the declared type of a field (the byte-string kinds that need a codec included). -/
+def accF (t : FTy) : Bool := fieldBlob t || accepted t
+
+theorem compat_self (t : FTy) (l : Bool) (h : accF t = true) : compatTy l t t = true := by
+  simp only [accF, Bool.or_eq_true] at h
+  rcases h with h | h
+  · exact compat_blob_refl t l h
+  · exact compat_refl t l h
+
+/-- "Renaming every identifier" (and `n` ↔ `b`): compatible in both directions. -/
+theorem step_compatible_rename (l : Bool) (t t' : FTy) (h : C08.anonymize t = C08.anonymize t')
+    (ha : accF t = true) (ha' : accF t' = true) : compatTy l t t' = true ∧ compatTy l t' t = true := by
+  constructor
+  · rw [← compat_anon t t' l, ← h, compat_anon t t l]; exact compat_self t l ha
+  · rw [← compat_anon t' t l, h, compat_anon t' t' l]; exact compat_self t' l ha'
+
+/-- "turn a unit variant into a struct or tuple variant if all fields are optional": both directions. -/
+theorem step_compatible_unit (l : Bool) (e : EAttr) (va : VAttr) (sh : Shape) (fs : Fields) (vars : Variants)
+    (hsh : va.shape = .unit) (hne : sh ≠ .unit) (hall : allOptional fs = true)
+    (hold : accepted (.enum e ((va, []) :: vars)) = true)
+    (hnew : accepted (.enum e (({ va with shape := sh }, fs) :: vars)) = true) :
+    compatTy l (.enum e ((va, []) :: vars)) (.enum e (({ va with shape := sh }, fs) :: vars)) = true ∧
+    compatTy l (.enum e (({ va with shape := sh }, fs) :: vars)) (.enum e ((va, []) :: vars)) = true := by
+  have hold' := hold
+  have hnew' := hnew
+  simp only [accepted, Bool.and_eq_true] at hold' hnew'
+  have hndO := C08.nodupNat_nodup _ hold'.1.2
+  have hndN := C08.nodupNat_nodup _ hnew'.1.2
+  have haO := hold'.1.1.2
+  have haN := hnew'.1.1.2
+  simp only [acceptedVars, Bool.and_eq_true] at haO haN
+  constructor
+  · simp only [compatTy, beq_self_eq_true, Bool.true_and, compatVars, findVar, if_true, Bool.and_eq_true]
+    refine ⟨?_, compatVars_refl l e vars _ haO.2 hndN (fun g hg => by simp [hg])⟩
+    cases sh with
+    | unit => exact absurd rfl hne
+    | tuple => simp [hsh, hall]
+    | named => simp [hsh, hall]
+  · simp only [compatTy, beq_self_eq_true, Bool.true_and, compatVars, findVar, if_true, Bool.and_eq_true]
+    refine ⟨by simp [hsh], compatVars_refl l e vars _ haO.2 hndO (fun g hg => by simp [hg])⟩
+
+/-- an edit inside the type of a struct field: both directions. -/
+theorem step_compatible_inField (l : Bool) (a : SAttr) (fa : FAttr) (t t' : FTy) (fs : Fields)
+    (hta : a.transparent = false) (hlive : fa.skip = false) (hopt : optionalField fa t = optionalField fa t')
+    (h : compatTy (optionalField fa t) t t' = true ∧ compatTy (optionalField fa t) t' t = true)
+    (hold : accepted (.struct a ((fa, t) :: fs)) = true) (hnew : accepted (.struct a ((fa, t') :: fs)) = true) :
+    compatTy l (.struct a ((fa, t) :: fs)) (.struct a ((fa, t') :: fs)) = true ∧
+    compatTy l (.struct a ((fa, t') :: fs)) (.struct a ((fa, t) :: fs)) = true := by
+  have hold' := hold
+  have hnew' := hnew
+  simp only [accepted, Bool.and_eq_true] at hold' hnew'
+  have hndO := C08.nodupNat_nodup _ hold'.1.1.2
+  have hndN := C08.nodupNat_nodup _ hnew'.1.1.2
+  have haO := hold'.1.1.1.2
+  have haN := hnew'.1.1.1.2
+  simp only [acceptedFields, Bool.and_eq_true] at haO haN
+  have key : ∀ (x y : FTy), compatTy (optionalField fa y) x y = true → acceptedFields fs = true →
+      (liveIdxs ((fa, x) :: fs)).Nodup → (liveIdxs ((fa, y) :: fs)).Nodup →
+      compatTy l (.struct a ((fa, x) :: fs)) (.struct a ((fa, y) :: fs)) = true := by
+    intro x y hc hafs hndx hndy
+    simp only [compatTy, hta, beq_self_eq_true, Bool.true_and, Bool.false_eq_true, if_false, Bool.and_eq_true]
+    refine ⟨?_, ?_⟩
+    · simp only [compatFields, hlive, Bool.false_eq_true, if_false, findField, Bool.not_false, Bool.true_and,
+        beq_self_eq_true, if_true, Bool.and_eq_true]
+      exact ⟨hc, compatFields_refl fs _ hafs hndy (fun g hg => by simp [hg])⟩
+    · simp only [onlyOptional, List.all_cons, Bool.and_eq_true, Bool.or_eq_true, List.all_eq_true]
+      refine ⟨Or.inl (Or.inr (by simp [findField, hlive])), ?_⟩
+      intro g hg
+      cases hs : g.1.skip
+      · left; right
+        have hnd' : (liveIdxs fs).Nodup := by
+          have : (fa.idx :: liveIdxs fs).Nodup := by simpa [liveIdxs, hlive] using hndx
+          exact (List.nodup_cons.1 this).2
+        have := findField_of_mem fs g.1 g.2 hnd' hg hs
+        by_cases he : fa.idx = g.1.idx
+        · simp [findField, hlive, he]
+        · have hb : (fa.idx == g.1.idx) = false := by simpa using he
+          simp [findField, hlive, hb, this]
+      · left; left; rfl
+  exact ⟨key t t' (by rw [← hopt]; exact h.1) haO.2 hndO hndN, key t' t h.2 haO.2 hndN hndO⟩
+
+theorem accF_field (a : SAttr) (fa : FAttr) (t : FTy) (fs : Fields) (h : accepted (.struct a ((fa, t) :: fs)) = true) :
+    accF t = true := by
+  simp only [accepted, Bool.and_eq_true] at h
+  have := h.1.1.1.2
+  simp only [acceptedFields, Bool.and_eq_true] at this
+  exact this.1.2
+
+theorem accepted_of_accF_struct {a : SAttr} {fs : Fields} (h : accF (.struct a fs) = true) : accepted (.struct a fs) = true := by
+  simpa [accF, fieldBlob] using h
+
+theorem accepted_of_accF_enum {e : EAttr} {vs : Variants} (h : accF (.enum e vs) = true) : accepted (.enum e vs) = true := by
+  simpa [accF, fieldBlob] using h
+
+/-- **every documented edit relates two versions that are `compatible` in both directions**
+    (`CompatStep l`: `l` = the edited type is the declared type of an optional field — the only
+    place where "add a variant" is documented as compatible). -/
+theorem step_compatible {l : Bool} {old new : FTy} (h : CompatStep l old new) :
+    accF old = true → accF new = true → compatTy l old new = true ∧ compatTy l new old = true := by
+  induction h with
+  | rename l t t' he => exact fun ha ha' => step_compatible_rename l t t' he ha ha'
+  | addField l a fs fa ft hta hlive hopt _ =>
+    intro ha ha'
+    exact step_compatible_field l a fs fa ft (accepted_of_accF_struct ha) (accepted_of_accF_struct ha') hta hlive hopt
+  | dropField l a fs fa ft hta hlive hopt _ =>
+    intro ha ha'
+    exact (step_compatible_field l a fs fa ft (accepted_of_accF_struct ha') (accepted_of_accF_struct ha) hta hlive hopt).symm
+  | addVariant e vars va fs _ =>
+    intro ha ha'
+    have := step_compatible_variant e vars va fs (accepted_of_accF_enum ha) (accepted_of_accF_enum ha')
+    exact ⟨this.1 true, this.2.1⟩
+  | unitToFields l e va sh fs vars hsh hne hall _ =>
+    intro ha ha'
+    exact step_compatible_unit l e va sh fs vars hsh hne hall (accepted_of_accF_enum ha) (accepted_of_accF_enum ha')
+  | inField l a fa t t' fs hta hlive _ hopt ih =>
+    intro ha ha'
+    have ha1 := accepted_of_accF_struct ha
+    have ha2 := accepted_of_accF_struct ha'
+    exact step_compatible_inField l a fa t t' fs hta hlive hopt
+      (ih (accF_field a fa t fs ha1) (accF_field a fa t' fs ha2)) ha1 ha2
+  | inOption l t t' _ ih =>
+    intro ha ha'
+    have h1 : accF t = true := by
+      simp only [accF, Bool.or_eq_true] at ha ⊢
+      rcases ha with h | h
+      · left; cases t <;> simp [fieldBlob] at h ⊢
+      · right; simpa [accepted] using h
+    have h2 : accF t' = true := by
+      simp only [accF, Bool.or_eq_true] at ha' ⊢
+      rcases ha' with h | h
+      · left; cases t' <;> simp [fieldBlob] at h ⊢
+      · right; simpa [accepted] using h
+    simpa [compatTy] using ih h1 h2
+  | inVec l t t' _ ih =>
+    intro ha ha'
+    have h1 : accF t = true := by
+      have : accepted t = true := by simpa [accF, fieldBlob, accepted] using ha
+      simp [accF, this]
+    have h2 : accF t' = true := by
+      have : accepted t' = true := by simpa [accF, fieldBlob, accepted] using ha'
+      simp [accF, this]
+    simpa [compatTy] using ih h1 h2
+
+/-- **C10 for the documented edits, both directions**: for every single documented edit between
+    two accepted versions (at any depth, through the congruence constructors), each version reads
+    what the other wrote and obtains the documented projection. -/
+theorem compat_decode_step (old new : FTy) (h : CompatStep false old new) (ho : accepted old = true)
+    (hn : accepted new = true) :
+    (∀ v rest, hasTy old v = true → benign old new v = true → C09.noClash old v = true →
+      (deriveEncode old v).length < 2 ^ 64 →
+      ∃ pv, project old new v = .ok pv ∧ deriveDecode new (deriveEncode old v ++ rest) = .ok pv rest) ∧
+    (∀ v rest, hasTy new v = true → benign new old v = true → C09.noClash new v = true →
+      (deriveEncode new v).length < 2 ^ 64 →
+      ∃ pv, project new old v = .ok pv ∧ deriveDecode old (deriveEncode new v ++ rest) = .ok pv rest) := by
+  obtain ⟨h1, h2⟩ := step_compatible h (by simp [accF, ho]) (by simp [accF, hn])
+  exact ⟨fun v rest hv hb hc hl => compat_decode old new v rest ho hn h1 hb hv hc hl,
+    fun v rest hv hb hc hl => compat_decode new old v rest hn ho h2 hb hv hc hl⟩
+
 
 end Minicbor.C10
